@@ -55,11 +55,15 @@ def case_strategy(draw):
         for d in ("in", "out"):
             for v in t[d]:
                 v["via"] = draw(st.sampled_from(["packet", "process",
-                                                 "struct", "override"]))
+                                                 "struct", "override",
+                                                 "sprocess"]))
                 if v["via"] == "override":
                     v["mapped"] = draw(st.sampled_from(
                         "BH" if isinstance(v["size"], int) else "BHIQ"))
         t["struct_off"] = [draw(st.integers(0, 3)), draw(st.integers(0, 3))]
+        # offset of the channel in the CoE index space (Struct's third
+        # parameter), used by process variables declared inside the channel
+        t["coe_off"] = draw(st.sampled_from([0, 0x100, 0x200, 0x800]))
         terms.append(t)
     cands = [(ti, d, v["name"]) for ti, t in enumerate(terms)
              for d in ("in", "out") for v in t[d]]
@@ -105,6 +109,15 @@ def make_terminal(ec, spec, index):
                 idx = (0x6000 if direction == "in" else 0x7000) + 0x10 * k
                 ns[v["name"]] = ProcessDesc(idx, 1)
                 pdos[idx, 1] = (sm, p, v["size"])
+            elif v["via"] == "sprocess":
+                # a process variable declared inside a Struct channel: its
+                # index is relative to the channel's CoE offset
+                idx = (0x6000 if direction == "in" else 0x7000) + 0x10 * k
+                coe = spec.get("coe_off", 0)
+                sns[v["name"]] = ProcessDesc(idx, 1)
+                if coe:
+                    pdos[idx, 1] = (sm, 0, v["size"])      # channel 1's
+                pdos[idx + coe, 1] = (sm, p, v["size"])
             elif v["via"] == "override":
                 # the mapping says v["mapped"], the descriptor knows better
                 idx = (0x6000 if direction == "in" else 0x7000) + 0x10 * k
@@ -118,7 +131,7 @@ def make_terminal(ec, spec, index):
                     sns[v["name"]] = PacketDesc(sm, p - shift, v["size"])
     if sns:
         Ch = type("Ch", (Struct,), sns)
-        ns["ch"] = Ch(soff[0], soff[1])
+        ns["ch"] = Ch(soff[0], soff[1], spec.get("coe_off", 0))
     cls = type(f"T{index}", (EBPFTerminal,), ns)
     t = cls(ec)
     t.name = f"T{index}"
